@@ -644,6 +644,75 @@ def plain(v):
     return list(list.__iter__(v)) if isinstance(v, list) else list(v)
 
 
+IDHOW = ["deepcopy", "copy", "from_dict", "counter", "assigned"]
+
+
+def build_designs(lab, cfg):
+    """The design objects of a case, one NEW object per entry of cfg["vectors"].  Individual.id is not unique per object: with
+    cfg["idgroups"] (per design: a group label or None) the designs of one group are different objects, with their own vectors,
+    that carry ONE id, made the ways user code makes them (cfg["idhow"], per design): copy.deepcopy / copy.copy of a design whose
+    vector is then replaced (the usual way to make a perturbed variant), Individual.from_dict of a record that comes from another
+    store, Individual.counter set back before the design is created, the id assigned.  Nothing in the property (and nothing in
+    the model: designs are positions of the batch) depends on the id."""
+    import copy
+    import json
+    Ind = lab.Individual
+    n = len(cfg["vectors"])
+    groups = cfg.get("idgroups") or [None] * n
+    how = cfg.get("idhow") or ["deepcopy"] * n
+    template, objs = {}, []
+    for i, v in enumerate(cfg["vectors"]):
+        g = groups[i]
+        if g is None or g not in template:
+            ind = Ind(list(v))
+            if g is not None:
+                template[g] = copy.deepcopy(ind)         # pristine: taken before the case's presets are applied
+        else:
+            tpl = template[g]
+            if how[i] == "deepcopy":
+                ind = copy.deepcopy(tpl)
+                ind.vector = list(v)
+            elif how[i] == "copy":                       # shallow clone, every mutable field replaced by one of its own
+                ind = copy.copy(tpl)
+                ind.vector, ind.costs, ind.costs_signed = list(v), [], []
+                ind.features, ind.custom, ind.parents, ind.children = dict(tpl.features), {}, [], []
+            elif how[i] == "from_dict":                  # a record of another store whose ids overlap with ours
+                d = Ind(list(v)).to_dict()
+                d["id"] = tpl.id
+                ind = Ind.from_dict(json.loads(json.dumps(d)))
+                ind.state = ind.State.EMPTY              # from_dict leaves the state as text
+            elif how[i] == "counter":                    # Individual.counter set back (a second optimisation in one process)
+                saved = Ind.counter
+                Ind.counter = tpl.id
+                ind = Ind(list(v))
+                Ind.counter = max(saved, Ind.counter)
+            else:
+                ind = Ind(list(v))
+                ind.id = tpl.id
+        objs.append(ind)
+    return objs
+
+
+def shared_id_text(cfg):
+    """how the designs of a case that share an id were made (for the failing input)"""
+    groups, how = cfg.get("idgroups"), cfg.get("idhow")
+    if not groups:
+        return None
+    out, first = {}, {}
+    for i, g in enumerate(groups):
+        if g is None:
+            continue
+        if g not in first:
+            first[g] = i
+            out[str(i)] = "Individual(vector)"
+        else:
+            out[str(i)] = {"deepcopy": "copy.deepcopy(design %d), vector replaced", "copy": "copy.copy(design %d), vector / costs / features replaced",
+                           "from_dict": "Individual.from_dict(record with the id of design %d), state EMPTY",
+                           "counter": "Individual(vector) after Individual.counter was set back to the id of design %d",
+                           "assigned": "Individual(vector), id := id of design %d"}[how[i]] % first[g]
+    return out
+
+
 UPSERT = "INSERT INTO individuals"
 LOCKED = "database is locked"
 
@@ -947,8 +1016,9 @@ class Session:
     def run(self):
         lab, cfg, p = self.lab, self.cfg, self.problem
         self.objs = []
+        made = build_designs(lab, cfg)
         for v, pre in zip(cfg["vectors"], cfg["presets"]):
-            ind = lab.Individual(list(v))
+            ind = made[len(self.objs)]
             if pre:
                 ind.state = getattr(ind.State, pre["state"])
                 ind.costs = list(pre.get("costs", []))
@@ -1092,6 +1162,9 @@ def oracle(par, ser, cfg, label):
            "gate_trace": [list(e) for e in par.ctl.trace][:60]}
     if cfg.get("ambient"):
         inp["ambient_joblib_configuration"] = "joblib.parallel_%s(%r) around Algorithm.evaluate" % tuple(cfg["ambient"])
+    if cfg.get("idgroups"):
+        inp["designs_sharing_one_Individual_id"] = shared_id_text(cfg)
+        inp["ids"] = [o.id for o in par.objs]
 
     def add(what, kind="parallel", **detail):
         if len(out) < 6:
@@ -1529,6 +1602,179 @@ def numpy_objective_streams(ctx, lab, rng, acc):
                 h["designs_overflow_or_invalid"] += any(not math.isfinite(c) or abs(c) >= 1e300 for c in cs)
 
 
+def group_ids(rng, cfg, shape=None):
+    """give several designs of the case one Individual.id: 'all' = one id for the whole batch, 'two' = two ids, 'some' = one shared
+    id among designs with ids of their own, 'pairs' = neighbours in submission order pairwise"""
+    n = len(cfg["vectors"])
+    shape = shape or rng.choice(["all", "all", "two", "some", "pairs"])
+    order = list(cfg["batch"])
+    if shape == "all":
+        g = {t: 0 for t in order}
+    elif shape == "two":
+        g = {t: j % 2 for j, t in enumerate(order)}
+    elif shape == "pairs":
+        g = {t: j // 2 for j, t in enumerate(order)}
+    else:
+        members = set(rng.sample(order, max(2, (n + 1) // 2)))
+        g = {t: 0 for t in members}
+    groups = [g.get(t) for t in range(n)]
+    sizes = {}
+    for x in groups:
+        if x is not None:
+            sizes[x] = sizes.get(x, 0) + 1
+    cfg["idgroups"] = [x if x is not None and sizes[x] > 1 else None for x in groups]
+    cfg["idhow"] = [rng.choice(IDHOW) for _ in range(n)]
+    return cfg
+
+
+def shared_id_streams(ctx, lab, rng, acc):
+    """red-team round 6: Individual.id is NOT unique per design object (copy.deepcopy / copy.copy of a design keeps it - the usual
+    way to make a perturbed variant -, so do Individual.from_dict of a record from another store, a counter that was set back, an
+    assigned id).  Batches in which several DIFFERENT designs (own objects, own vectors) carry one id, evaluated while the workers
+    overlap: (a) gated sessions (every worker is inside Job.evaluate - at its objective gate - before any is released; memory store,
+    whose rows are kept per object), compared with the model, for which a design is a position of the batch, and with the serial
+    run, like every other schedule; free-running runs; (b) a plain Problem whose objective SLEEPS (the calls of free-running workers
+    overlap without any gate), with and without a real SQLite store.  The SQLite table is keyed by id: designs that share an id share
+    a row - in the serial run too -, so in (b) the row of an id is required to hold the final data of ONE evaluated design with that
+    id (all that the store can tell), and every id of the batch has a row."""
+    h = acc["hist"].setdefault("shared_ids", {"gated": 0, "free": 0, "plain_slow": 0, "designs_sharing_an_id": 0, "by_construction": {},
+                                              "by_shape": {}})
+
+    def note(cfg, shape):
+        h["by_shape"][shape] = h["by_shape"].get(shape, 0) + 1
+        seen = set()
+        for i, g in enumerate(cfg["idgroups"]):
+            if g is None:
+                continue
+            h["designs_sharing_an_id"] += 1
+            if g in seen:
+                h["by_construction"][cfg["idhow"][i]] = h["by_construction"].get(cfg["idhow"][i], 0) + 1
+            seen.add(g)
+
+    # (a) gated
+    shapes = ["all", "two", "some", "pairs"]
+    pols = [pol_fifo, pol_lifo, pol_obj_first, pol_sync_first, pol_round_robin]
+    for j in range(ctx.pick(8, 90)):
+        n = rng.choice([2, 3, 4, 5, 6])
+        shape = shapes[j % len(shapes)]
+        cfg = rand_cfg(rng, n, fail_rate=0.0 if j % 3 else 0.4, store="memory", pre_rate=0.0 if j % 4 else 0.15)
+        group_ids(rng, cfg, shape)
+        if j < len(IDHOW):                               # every construction at least once, on the whole group
+            cfg["idhow"] = [IDHOW[j]] * n
+        note(cfg, shape)
+        pol = pols[j % len(pols)] if j < 2 * len(pols) else pol_random(rng.getrandbits(32))
+        one(ctx, lab, cfg, rng.choice([2, 3, 4]) if n > 2 else 2, pol, pol.__name__.replace("pol_", "") + ":shared-id", acc)
+        h["gated"] += 1
+    for j in range(ctx.pick(2, 20)):
+        cfg = rand_cfg(rng, rng.choice([6, 8, 12]), fail_rate=0.2, store="memory", pre_rate=0.0)
+        shape = shapes[j % len(shapes)]
+        group_ids(rng, cfg, shape)
+        note(cfg, shape)
+        one(ctx, lab, cfg, 8, None, "free:shared-id", acc, switch=1e-6)
+        acc["hist"]["free_running"] += 1
+        h["free"] += 1
+
+    # (b) a plain Problem with a slow objective, nothing of the harness inside artap
+    from artap.problem import Problem
+
+    class Slow(Problem):
+        def set(self, **kwargs):
+            self.name = "c07 slow"
+            self.parameters = [{"name": "x_1", "initial_value": 0.0, "bounds": [-10, 10]}, {"name": "x_2", "initial_value": 0.0, "bounds": [-10, 10]}]
+            self.costs = [{"name": "F", "criteria": "minimize"}, {"name": "G", "criteria": "maximize"}]
+            self.calls = []
+            self.pause = kwargs.get("pause", 0.02)
+
+        def evaluate(self, individual):
+            self.calls.append(id(individual))            # the object, not its id
+            x = [float(v) for v in individual.vector]
+            time.sleep(self.pause)
+            return [x[0] * x[0] + x[1] * x[1], x[0] - x[1]]
+
+    def slow_run(cfg, workers, store, pause):
+        with contextlib.redirect_stderr(io.StringIO()):
+            p = Slow(pause=pause)
+        p.logger.setLevel(lab.logging.CRITICAL)
+        path = None
+        if store:
+            path = lab.db_path()
+            p.data_store = lab.SqliteDataStore(p, database_name=path)
+        batch = build_designs(lab, cfg)
+        alg = lab.DummyAlgorithm(p)
+        alg.options["max_processes"] = workers
+        exc = None
+        out = io.StringIO()
+        with contextlib.redirect_stdout(out), contextlib.redirect_stderr(out):
+            try:
+                alg.evaluate(batch)
+            except BaseException as e:      # noqa: what the caller sees
+                exc = e
+        rows = None
+        if store:
+            try:
+                with contextlib.redirect_stderr(io.StringIO()), contextlib.redirect_stdout(io.StringIO()):
+                    view = lab.ProblemViewDataStore(database_name=path)
+                lab.tidy(view)
+                rows = {r.id: (list(r.vector), list(r.costs), list(r.costs_signed), str(r.state).upper()) for r in view.individuals}
+                view.data_store.destroy()
+            except Exception as e:
+                rows = {"unreadable": repr(e)}
+            p.data_store.destroy()
+        lab.tidy(p)
+        return p, batch, rows, exc
+
+    grid = [-2.0, -1.0, 0.5, 0.0, 1.5, 3.0, 4.0, 0.1, 2.5, -3.0]
+    for j in range(ctx.pick(4, 24)):
+        if len(ctx.oracle_failures) >= 36:
+            break
+        n = rng.choice([4, 5, 6])
+        vectors = [[rng.choice(grid), rng.choice(grid)] for _ in range(n)]
+        if j % 2:
+            vectors[-1] = list(vectors[0])              # two designs of one id that also share the vector
+        shape = shapes[j % len(shapes)]
+        cfg = group_ids(rng, {"vectors": vectors, "batch": list(range(n))}, shape)
+        if j < 2:
+            cfg["idhow"] = ["deepcopy"] * n
+        note(cfg, shape)
+        workers = rng.choice([2, 3, 4])
+        store = j % 4 < 2
+        pause = rng.choice([0.01, 0.02])
+        _, ser, _, sexc = slow_run(cfg, 1, store, 0.0)
+        p, par, rows, exc = slow_run(cfg, workers, store, pause)
+        inp = {"objective": "plain Problem: [x^2 + y^2, x - y] after time.sleep(%g), criteria minimize / maximize" % pause, "workers": workers,
+               "vectors": vectors, "store": "sqlite" if store else "none", "designs_sharing_one_Individual_id": shared_id_text(cfg),
+               "ids": [b.id for b in par], "schedule": "free running, the objective sleeps so that the workers' calls overlap"}
+
+        def add(what, **kw):
+            if len(ctx.oracle_failures) < 40:
+                ctx.oracle_failures.append({"what": what, "input": dict(inp, **kw), "match": {"kind": "parallel"}})
+        if exc is not None or sexc is not None:
+            add("evaluation of a batch of designs sharing an id raised %r (serial: %r)" % (exc, sexc))
+        by_id = {}
+        for k, (a, b) in enumerate(zip(ser, par)):
+            fa = (list(a.costs), list(a.costs_signed), a.state.name)
+            fb = (list(b.costs), list(b.costs_signed), b.state.name)
+            if not (same_vec(fa[0], fb[0]) and same_signed(fa[1], fb[1]) and fa[2] == fb[2]):
+                add("design %d differs between parallel and serial evaluation of the same batch" % k, design=k, vector=vectors[k],
+                    serial=fa, parallel=fb)
+            ncalls = sum(1 for c in p.calls if c == id(b))
+            if ncalls != 1:
+                add("objective invoked %d time(s) for design %d (exactly once is required)" % (ncalls, k), design=k, vector=vectors[k])
+            if fb[2] == "EVALUATED":
+                by_id.setdefault(b.id, []).append((k, [float(x) for x in b.vector], fb))
+        if rows is not None:
+            for i, members in sorted(by_id.items()):
+                row = rows.get(i)
+                if row is None or not any(same_vec(row[0], vec) and same_vec(row[1], fb[0]) and same_signed(row[2], fb[1]) and row[3] == "EVALUATED"
+                                          for _, vec, fb in members):
+                    add("the store holds no row with the final data of an evaluated design for id %r (designs %s)" % (i, [m[0] for m in members]),
+                        row=row, designs=[m[0] for m in members])
+            if "unreadable" in rows:
+                add("the store cannot be read back: %s" % rows["unreadable"])
+        h["plain_slow"] += 1
+        ctx.count(("shared-id-slow", shape, workers, n, store, tuple(map(tuple, vectors)), tuple(cfg["idhow"])), nontrivial=True)
+
+
 # ----------------------------------------------------------------------------- main
 def one(ctx, lab, cfg, k, policy, label, acc, switch=None):
     if len(ctx.oracle_failures) >= 40 and acc["hist"]["schedules"] >= 12:
@@ -1547,7 +1793,8 @@ def one(ctx, lab, cfg, k, policy, label, acc, switch=None):
                         "final_parallel": par.after, "final_serial": ser.after, "rows_parallel": par.rows,
                         "exception": repr(par.exc) if par.exc else None, "anomalies": par.anomalies[:3],
                         "store_faults": {str(k): v for k, v in (cfg.get("store_faults") or {}).items()}, "contention": cfg.get("contend"),
-                        "sync_all": bool(cfg.get("sync_all")), "store_refusals": par.store_stats, "ambient": cfg.get("ambient")})
+                        "sync_all": bool(cfg.get("sync_all")), "store_refusals": par.store_stats, "ambient": cfg.get("ambient"),
+                        "designs_sharing_one_Individual_id": shared_id_text(cfg)})
     for what, detail, kind in oracle(par, ser, cfg, label):
         if len(ctx.oracle_failures) < 40:
             ctx.oracle_failures.append({"what": what, "input": detail, "match": {"kind": kind}})
@@ -1625,6 +1872,8 @@ def run(ctx):
     ambient_backend_streams(ctx, lab, rng, acc)
     # ---- numpy objectives that overflow / are invalid for some designs (red-team round 3)
     numpy_objective_streams(ctx, lab, rng, acc)
+    # ---- several different designs of a batch carry ONE Individual.id (clones, from_dict, counter set back) (red-team round 6)
+    shared_id_streams(ctx, lab, rng, acc)
     # ---- generated controlled schedules
     n_sched = ctx.pick(24, 400)
     for j in range(n_sched):
@@ -1688,7 +1937,12 @@ def run(ctx):
                 "multiprocessing, prefer / require / n_jobs): gated sessions and a plain picklable Problem, per-design result = serial, "
                 "objective called once per design in the caller's process; numpy stream: seven objectives written with numpy that overflow / are "
                 "invalid (inf, nan, huge values, np.round overflow in calc_signed_costs) for some designs of the batch, gated and free-running, "
-                "objective table of the model = a plain call of the same function")
+                "objective table of the model = a plain call of the same function; shared-id stream: several different designs of the batch "
+                "(own objects, own vectors) carry one Individual.id (copy.deepcopy / copy.copy with the vector replaced, Individual.from_dict, "
+                "Individual.counter set back, id assigned; one id for the whole batch, two ids, pairs, some), gated (every worker inside "
+                "Job.evaluate before any is released; memory store) and free-running, and with a plain Problem whose objective sleeps so that "
+                "free-running workers overlap (with and without SQLite; the table is keyed by id, so per id: a row with the final data of one "
+                "evaluated design of that id)")
     ctx.extra.update({"schedules": acc["hist"]["schedules"], "distribution": acc["hist"]})
 
 
